@@ -193,6 +193,35 @@ class HeapMixin:
             st.heap[key] = self.arbitrary(arr(INT, so), f"hvall_{field}")
         return st
 
+    # ---- open attribute store (objects whose attribute set is not fixed by the class) ---------
+    # three heap arrays indexed by object, then by attribute NAME: present?, is None?, value token.  A computed-name
+    # setattr is a store, a computed-name getattr a select: the store carries values.
+    OPEN_KEYS = (("$open.has", BOOL), ("$open.none", BOOL), ("$open.val", INT))
+
+    def open_row(self, st: State, key: str, so: str, obj_t: T) -> T:
+        return select(self.heap_array(st, key, INT, arr(STR, so)), obj_t)
+
+    def open_read(self, st: State, obj_t: T, name_t: T):
+        """-> (has, isnone, token) of attribute `name` of object `obj`"""
+        return tuple(select(self.open_row(st, key, so, obj_t), name_t) for key, so in self.OPEN_KEYS)
+
+    def open_write(self, st: State, obj_t: T, name_t: T, isnone: T, tok: T) -> State:
+        st = st.copy()
+        for (key, so), v in zip(self.OPEN_KEYS, (TRUE, isnone, tok)):
+            a = self.heap_array(st, key, INT, arr(STR, so))
+            st.heap[key] = store(a, obj_t, store(select(a, obj_t), name_t, v))
+        return st
+
+    def open_havoc(self, st: State, obj_t=None) -> State:
+        st = st.copy()
+        for key, so in self.OPEN_KEYS:
+            a = self.heap_array(st, key, INT, arr(STR, so))
+            if obj_t is None:
+                st.heap[key] = self.arbitrary(arr(INT, arr(STR, so)), "hvopen")
+            else:
+                st.heap[key] = store(a, obj_t, self.arbitrary(arr(STR, so), "hvopen1"))
+        return st
+
     # ---- allocation -------------------------------------------------------------------------
     def alloc_ref(self, st: State) -> tuple[State, T]:
         st = st.copy()
